@@ -15,7 +15,7 @@ RULE = ("dimension lists as C02 (0..4 dims, one/two/three-axis, any commons, inf
         "weights none / scalar / array / (values, validity), zeros included; both missing-value policies; dense arrays "
         "handed to xcube as int64 and as the unsigned dtype to_array produces. Dyadic stream (k/8 values): every float64 "
         "operation of the real code is exact, compared EXACTLY with the direct Fraction group-by and with the Lean model; "
-        "general stream (arbitrary doubles): tolerance 1e-9 x grand total, missing cells exactly. Non-trivial = >=1 dim and "
+        "wide stream: 1-2 dims whose extent / product of extents straddles 2^8 (thorough: 2^16); general stream (arbitrary doubles): tolerance 1e-9 x grand total, missing cells exactly. Non-trivial = >=1 dim and "
         ">=1 row; distinct by (dims, fact, weights, policy, aggregate)")
 ASSUMPTIONS = ["float64 sums/products of the dyadic stream are exact (bounded magnitude, N <= 40)",
                "float rounding on the general stream is within 1e-9 of the grand total"]
@@ -85,7 +85,10 @@ def check(ctx, case, reqs, pend, shape_mode="inferred"):
         ishape = tuple(int(x) for x in cc.interacting_shape)
         xdt = ctx.rng.choice(["int64", "to_array"])
         try:
-            xdims = [d.astype(np.int64) if xdt == "int64" else ix.to_array() for d, ix in zip(dense, idxs)]
+            # to_array is defined for one- and two-axis indexes (C01); a three-axis dimension keeps its dense array,
+            # cast to the narrow unsigned dtype to_array would have produced
+            xdims = [d.astype(np.int64) if xdt == "int64" else
+                     (ix.to_array() if d.ndim <= 2 else d.astype(ix.to_array().dtype)) for d, ix in zip(dense, idxs)]
             xshape = ishape if (shape is not None or ctx.rng.random() < 0.5) else None
             if N == 0:
                 xshape = ishape       # nothing to infer a shape from
@@ -168,7 +171,13 @@ def run(ctx):
         check(ctx, case, reqs, pend, shape_mode=ctx.rng.choice(["inferred", "explicit"]))
     for _ in range(ctx.n(15)):
         case = A.gen_case(ctx.rng, multi_axis=False, general=True)
+        if _ % 3 == 2:
+            case = A.gen_case(ctx.rng, k=2, N=ctx.rng.choice([9, 14, 25]), general="residue")
         ctx.hit("general_stream")
+        check(ctx, case, reqs, pend)
+    for it in range(ctx.n(3, 24)):   # extents straddling the narrow coordinate types the array cube picks (2^8; thorough: 2^16)
+        case = A.gen_case(ctx.rng, wide="u16" if (ctx.tier == "thorough" and it % 8 == 7) else "u8")
+        ctx.hit("wide_extents")
         check(ctx, case, reqs, pend)
     if ctx.oracle_only:
         return
